@@ -151,6 +151,18 @@ class SArr(Model):
         # a[mask]: a view of the elements where mask holds (its length is data dependent, so it
         # stays attached to its mask: element-wise results can only be assigned back through the
         # same mask, which is how the verified code uses it)
+        if not isinstance(idx, MaskedView):
+            probe = idx.at(0) if isinstance(idx.length, int) and idx.length > 0 else (idx.at(z3.Int('fancy_probe')) if not isinstance(idx.length, int) else None)
+            if probe is not None and not isinstance(probe, bool) and not z3.is_bool(probe) and (isinstance(probe, int) or (z3.is_expr(probe) and probe.sort() == Z)):
+                # integer index array: gather (numpy fancy indexing); negative indices wrap as in numpy
+                base, n = self.snapshot(), self.length
+
+                def g(k):
+                    i = to_z3(idx.at(k))
+                    return base.at(z3.If(i < 0, i + to_z3(n), i))
+                return SArr(idx.length, g, kind='ndarray')
+            if isinstance(idx.length, int) and idx.length == 0:
+                return SArr(0, lambda k: Fraction(0), kind='ndarray')
         return MaskedView(self, idx)
 
     def py_setitem(self, I, idx, val):
@@ -238,7 +250,48 @@ class SArr(Model):
             def fill(v):
                 self.fn = lambda k: v
             return Builtin('ndarray.fill', fill, pure=False)
+        if name == 'reshape' and self.kind == 'ndarray':
+            def reshape(*shape):
+                if len(shape) == 1 and isinstance(shape[0], tuple):
+                    shape = shape[0]
+                if len(shape) != 2:
+                    raise Unsupported('reshape to other than two dimensions')
+                a, b = shape
+                if not I.ctx.entails(to_z3(a) * to_z3(b) == to_z3(self.length)):
+                    I.raise_('ValueError', 'cannot reshape array into the requested shape')
+                g = self.snapshot()
+                return Grid2(a, b, lambda i, j: to_real(g.at(i * to_z3(b) + j)))       # row-major (C order)
+            return Builtin('ndarray.reshape', reshape)
         raise Unsupported(f'ndarray.{name}')
+
+
+class Grid2(Model):
+    """A 2-D float array G[i, j] (numpy) as a function of two indices."""
+    type_names = ('numpy.ndarray',)
+
+    def __init__(self, ni, nj, fn):
+        self.ni, self.nj, self.fn = ni, nj, fn
+
+    def py_setitem(self, I, idx, val):
+        if not (isinstance(idx, tuple) and len(idx) == 2):
+            raise Unsupported('grid assignment that is not G[i, j] = v')
+        i0, j0 = to_z3(idx[0]), to_z3(idx[1])
+        if I.ctx.branch(z3.Or(i0 < 0, i0 >= to_z3(self.ni), j0 < 0, j0 >= to_z3(self.nj))):
+            I.raise_('IndexError', 'index out of bounds for the grid')
+        old = self.fn
+        v = to_real(val)
+        self.fn = lambda i, j: z3.If(z3.And(i == i0, j == j0), v, old(i, j))
+
+    def py_getattr(self, I, name):
+        if name == 'T':
+            f = self.fn
+            return Grid2(self.nj, self.ni, lambda i, j: f(j, i))
+        if name == 'shape':
+            return (self.ni, self.nj)
+        raise Unsupported('2-D ndarray.' + name)
+
+    def at(self, i, j):
+        return self.fn(to_z3(i), to_z3(j))
 
 
 class MaskedView(SArr):
